@@ -2798,7 +2798,15 @@ impl<'de, 'e> de::Deserializer<'de> for YamlDeserializer<'de, 'e> {
                         location: variant_location,
                     },
                 )?;
-                Ok((v, VA { ev, cfg, map_mode }))
+                Ok((
+                    v,
+                    VA {
+                        ev,
+                        cfg,
+                        map_mode,
+                        variant_location,
+                    },
+                ))
             }
         }
 
@@ -2806,6 +2814,7 @@ impl<'de, 'e> de::Deserializer<'de> for YamlDeserializer<'de, 'e> {
             ev: &'e mut dyn Events<'de>,
             cfg: Cfg,
             map_mode: bool,
+            variant_location: Location,
         }
 
         impl<'de, 'e> VA<'de, 'e> {
@@ -2853,6 +2862,22 @@ impl<'de, 'e> de::Deserializer<'de> for YamlDeserializer<'de, 'e> {
             where
                 T: de::DeserializeSeed<'de>,
             {
+                if !self.map_mode {
+                    // The variant was named by a bare scalar: that scalar is the whole node and
+                    // there is no payload. Whatever event comes next belongs to something else
+                    // (the next element of the enclosing sequence, the next document of the
+                    // stream) and must not be read as this variant's payload: the payload is
+                    // null, which `Option` and unit-like payloads accept and others reject.
+                    let mut none = ReplayEvents::new(vec![Ev::Scalar {
+                        value: String::new().into(),
+                        tag: SfTag::Null,
+                        raw_tag: None,
+                        style: ScalarStyle::Plain,
+                        anchor: 0,
+                        location: self.variant_location,
+                    }]);
+                    return seed.deserialize(YamlDeserializer::new(&mut none, self.cfg));
+                }
                 // Get locations for error reporting before deserializing.
                 let defined_location = self
                     .ev
@@ -2877,11 +2902,16 @@ impl<'de, 'e> de::Deserializer<'de> for YamlDeserializer<'de, 'e> {
             where
                 Vv: Visitor<'de>,
             {
+                if !self.map_mode {
+                    // A bare scalar names the variant and carries no payload (see above).
+                    return Err(Error::unexpected(
+                        "a mapping from the variant name to its tuple payload",
+                    )
+                    .with_location(self.variant_location));
+                }
                 let result =
                     YamlDeserializer::new(self.ev, self.cfg).deserialize_tuple(len, visitor)?;
-                if self.map_mode {
-                    self.expect_map_end()?;
-                }
+                self.expect_map_end()?;
                 Ok(result)
             }
 
@@ -2894,11 +2924,16 @@ impl<'de, 'e> de::Deserializer<'de> for YamlDeserializer<'de, 'e> {
             where
                 Vv: Visitor<'de>,
             {
+                if !self.map_mode {
+                    // A bare scalar names the variant and carries no payload (see above).
+                    return Err(
+                        Error::unexpected("a mapping from the variant name to its fields")
+                            .with_location(self.variant_location),
+                    );
+                }
                 let result = YamlDeserializer::new(self.ev, self.cfg)
                     .deserialize_struct("", fields, visitor)?;
-                if self.map_mode {
-                    self.expect_map_end()?;
-                }
+                self.expect_map_end()?;
                 Ok(result)
             }
         }
